@@ -107,3 +107,99 @@ package rpc
 //@   ensures  ticks:   q == u64(qTickBefore + update.QueueTick) && mt == u32(machTickBefore + update.MachTick)
 //@   loop 1 invariant shape:   len(timeAfter) == len(timeBefore) && l == len(timeBefore) && fresh(timeAfter)
 //@   loop 1 invariant applied: forall x int :: 0 <= x && x < len(timeAfter) ==> timeAfter[x] == u64(timeBefore[x] + SumAt(update.Indexes, update.Ticks, x, i))
+
+// ---- C10: lemmas over the contracts above (a `call` step uses only the
+// callee's contract, never its body) ----
+
+// With strictly increasing indexes at most one entry addresses x.
+//@ lemma sumat_hit(I []uint16, T []uint32, x int, n int, j int)
+//@   props C10
+//@   induct n
+//@   uses sumat_miss
+//@   pattern SumAt(I, T, x, n); I[j]
+//@   requires sorted: forall a, b int :: 0 <= a && a < b && b < len(I) ==> I[a] < I[b]
+//@   requires n: 0 <= n && n <= len(I)
+//@   ensures  hit:  (0 <= j && j < n && I[j] == x) ==> SumAt(I, T, x, n) == T[j]
+
+//@ lemma sumat_miss(I []uint16, T []uint32, x int, n int)
+//@   props C10
+//@   induct n
+//@   pattern SumAt(I, T, x, n)
+//@   requires n: 0 <= n && n <= len(I)
+//@   ensures  miss: (forall a int :: 0 <= a && a < n ==> I[a] != x) ==> SumAt(I, T, x, n) == 0
+
+// Round trip, deep clocks: the update derived from (prev -> now), applied to a
+// mirror that holds prev on every pushed position, yields now on every pushed
+// position, leaves the others alone and restores queue and machine ticks.
+//@ lemma roundtrip_deep(syncSchema bool, now *tracerData, prev *tracerData, c *Client, mirror am.Time)
+//@   props C10
+//@   uses sumat_hit, sumat_miss
+//@   requires nn:      now != nil && prev != nil && c != nil
+//@   requires snap:    Snap(now, syncSchema)
+//@   requires prevlen: isnil(prev.mTime) || len(prev.mTime) <= len(now.mTime)
+//@   requires mirror:  len(mirror) == len(now.mTime)
+//@   requires agree:   forall k int :: 0 <= k && k < len(now.tracked) ==> mirror[P(now, syncSchema, k)] == Prev(prev, P(now, syncSchema, k))
+//@   requires grow:    forall k int :: 0 <= k && k < len(now.tracked) ==> now.mTime[P(now, syncSchema, k)] >= Prev(prev, P(now, syncSchema, k))
+//@   requires small:   forall k int :: 0 <= k && k < len(now.tracked) ==> now.mTime[P(now, syncSchema, k)] - Prev(prev, P(now, syncSchema, k)) < 4294967296
+//@   call u := calcUpdate(syncSchema, now, prev, false)
+//@   assert nopush: forall x int :: (0 <= x && x < len(mirror) && !(exists k int :: 0 <= k && k < len(now.tracked) && P(now, syncSchema, k) == x)) ==> (forall j int :: 0 <= j && j < len(u.Indexes) ==> u.Indexes[j] != x)
+//@   assert miss: forall x int :: (0 <= x && x < len(mirror) && !(exists k int :: 0 <= k && k < len(now.tracked) && P(now, syncSchema, k) == x)) ==> SumAt(u.Indexes, u.Ticks, x, len(u.Indexes)) == 0
+//@   call a, q, m := c.clockFromUpdate(u, mirror, prev.queueTick, prev.machTick)
+//@   ensures  states: forall k int :: 0 <= k && k < len(now.tracked) ==> a[P(now, syncSchema, k)] == now.mTime[P(now, syncSchema, k)]
+//@   ensures  others: forall x int :: 0 <= x && x < len(a) && !(exists k int :: 0 <= k && k < len(now.tracked) && P(now, syncSchema, k) == x) ==> a[x] == mirror[x]
+//@   ensures  qtick:  (now.queueTick >= prev.queueTick && now.queueTick - prev.queueTick < 65536) ==> q == now.queueTick
+//@   ensures  mtick:  (now.machTick >= prev.machTick && now.machTick - prev.machTick < 256) ==> m == now.machTick
+//@   ensures  check:  u.Checksum == now.checksum
+
+// Round trip, shallow clocks: parity of every pushed position.
+//@ lemma roundtrip_shallow(syncSchema bool, now *tracerData, prev *tracerData, c *Client, mirror am.Time)
+//@   props C10
+//@   uses sumat_hit, sumat_miss
+//@   requires nn:      now != nil && prev != nil && c != nil
+//@   requires snap:    Snap(now, syncSchema)
+//@   requires prevlen: isnil(prev.mTime) || len(prev.mTime) <= len(now.mTime)
+//@   requires mirror:  len(mirror) == len(now.mTime)
+//@   requires agree:   forall k int :: 0 <= k && k < len(now.tracked) ==> mirror[P(now, syncSchema, k)] % 2 == Prev(prev, P(now, syncSchema, k)) % 2
+//@   requires room:    forall x int :: 0 <= x && x < len(mirror) ==> mirror[x] < MaxU64
+//@   call u := calcUpdate(syncSchema, now, prev, true)
+//@   assert hit: forall k int :: (0 <= k && k < len(now.tracked) && Prev(prev, P(now, syncSchema, k)) % 2 != now.mTime[P(now, syncSchema, k)] % 2) ==> SumAt(u.Indexes, u.Ticks, P(now, syncSchema, k), len(u.Indexes)) == 1
+//@   assert miss: forall k int :: (0 <= k && k < len(now.tracked) && Prev(prev, P(now, syncSchema, k)) % 2 == now.mTime[P(now, syncSchema, k)] % 2) ==> SumAt(u.Indexes, u.Ticks, P(now, syncSchema, k), len(u.Indexes)) == 0
+//@   call a, q, m := c.clockFromUpdate(u, mirror, prev.queueTick, prev.machTick)
+//@   ensures  parity: forall k int :: 0 <= k && k < len(now.tracked) ==> a[P(now, syncSchema, k)] % 2 == now.mTime[P(now, syncSchema, k)] % 2
+//@   ensures  qtick:  (now.queueTick >= prev.queueTick && now.queueTick - prev.queueTick < 65536) ==> q == now.queueTick
+
+// Checksum is additive modulo 256 in each argument: a mirror that is off by a
+// drift that is not a multiple of 256 produces a different check value.
+//@ lemma checksum_rejects(sum uint64, q uint64, m uint32, sum2 uint64, q2 uint64, m2 uint32)
+//@   props C10
+//@   requires drift: (sum + q + m) % 256 != (sum2 + q2 + m2) % 256
+//@   call c1 := Checksum(sum, q, m)
+//@   call c2 := Checksum(sum2, q2, m2)
+//@   ensures differ: c1 != c2
+
+//@ lemma checksum_accepts(sum uint64, q uint64, m uint32, sum2 uint64, q2 uint64, m2 uint32)
+//@   props C10
+//@   requires same: (sum + q + m) % 256 == (sum2 + q2 + m2) % 256
+//@   call c1 := Checksum(sum, q, m)
+//@   call c2 := Checksum(sum2, q2, m2)
+//@   ensures equal: c1 == c2
+
+// The same round trip without the field-width hypotheses. The wire format
+// carries the queue-tick diff in 16 bits, a state's tick diff in 32 bits and the
+// machine-tick diff in 8 bits; beyond those the statement fails (recorded as
+// known findings in /verif/known_findings.json, each with a witness test).
+//@ lemma roundtrip_deep_wide(syncSchema bool, now *tracerData, prev *tracerData, c *Client, mirror am.Time)
+//@   props C10
+//@   uses sumat_hit, sumat_miss
+//@   requires nn:      now != nil && prev != nil && c != nil
+//@   requires snap:    Snap(now, syncSchema)
+//@   requires prevlen: isnil(prev.mTime) || len(prev.mTime) <= len(now.mTime)
+//@   requires mirror:  len(mirror) == len(now.mTime)
+//@   requires agree:   forall k int :: 0 <= k && k < len(now.tracked) ==> mirror[P(now, syncSchema, k)] == Prev(prev, P(now, syncSchema, k))
+//@   requires grow:    forall k int :: 0 <= k && k < len(now.tracked) ==> now.mTime[P(now, syncSchema, k)] >= Prev(prev, P(now, syncSchema, k))
+//@   requires qgrow:   now.queueTick >= prev.queueTick && now.machTick >= prev.machTick
+//@   call u := calcUpdate(syncSchema, now, prev, false)
+//@   call a, q, m := c.clockFromUpdate(u, mirror, prev.queueTick, prev.machTick)
+//@   ensures  states_wide: forall k int :: 0 <= k && k < len(now.tracked) ==> a[P(now, syncSchema, k)] == now.mTime[P(now, syncSchema, k)]
+//@   ensures  qtick_wide:  q == now.queueTick
+//@   ensures  mtick_wide:  m == now.machTick
